@@ -48,6 +48,27 @@ type Outcome struct {
 	// XProc: values that must be identical in every process that computes them (checked by the
 	// supervisor across workers), e.g. hash of the bytes of a compiled fixture
 	XProc map[string]string
+	// KnownHits: violations that matched a known finding and did not end the run
+	KnownHits map[string]string
+}
+
+// violateOrKnown records a violation unless it is a listed known finding, in which case it is
+// counted and the run goes on (so that a known finding does not mask the rest of the batch).
+// It reports whether the run must stop.
+func (o *Outcome) violateOrKnown(w *Worker, class, key, msg string) bool {
+	v := &Violation{Class: class, Key: key, Msg: msg}
+	if k := w.matchKnown(v); k != nil {
+		if o.KnownHits == nil {
+			o.KnownHits = map[string]string{}
+		}
+		o.KnownHits[k.Key] = k.What
+		o.probe("known_finding_hits")
+		return false
+	}
+	if o.Viol == nil {
+		o.Viol = v
+	}
+	return true
 }
 
 func (o *Outcome) fault(k string) {
@@ -457,6 +478,10 @@ func TestWorker(t *testing.T) {
 		}
 		if o.NonTrivial {
 			descs[hash64(o.Desc)] = struct{}{}
+		}
+		for k, what := range o.KnownHits {
+			sum.Known[k]++
+			sum.KnownWhat[k] = what
 		}
 		for k, v := range o.XProc {
 			if sum.XProc == nil {
